@@ -51,20 +51,27 @@ pub fn sim_case(max_trace: usize, max_machines: usize, zero: bool, with_pps: boo
         .boxed()
 }
 
-/// does an injective matching recv -> send with send + delay <= recv exist?
-fn matchable(sends: &mut Vec<i128>, recvs: &mut Vec<i128>, delay: i128) -> Result<(), String> {
-    sends.sort();
-    recvs.sort();
-    let mut j = 0usize; // number of sends with s + delay <= current recv
-    for (k, r) in recvs.iter().enumerate() {
-        while j < sends.len() && sends[j] + delay <= *r {
-            j += 1;
-        }
-        if j < k + 1 {
-            return Err(format!(
-                "the {}-th earliest receive (at {r} ns) has only {j} sends at least one network delay ({delay} ns) before it",
-                k + 1
-            ));
+/// Does an injective matching of receives to *earlier* sends with send + delay <= recv exist?
+/// `items`: the packets of one direction and kind in trace order, (time, is_send). "Earlier" is
+/// by position in the time-ordered trace (with a zero delay send and receive share a timestamp).
+/// Sends come in non-decreasing time, so giving each receive the oldest unmatched send is optimal.
+fn matchable(items: &[(i128, bool)], delay: i128) -> Result<(), String> {
+    let mut sends: std::collections::VecDeque<i128> = Default::default();
+    for (k, (t, is_send)) in items.iter().enumerate() {
+        if *is_send {
+            sends.push_back(*t);
+        } else {
+            match sends.front() {
+                Some(s) if *s + delay <= *t => {
+                    sends.pop_front();
+                }
+                Some(s) => {
+                    return Err(format!(
+                        "the receive at {t} ns (item {k}) has no unmatched send at least one network delay ({delay} ns) before it: the oldest unmatched earlier send is at {s} ns"
+                    ))
+                }
+                None => return Err(format!("the receive at {t} ns (item {k}) is not preceded by an unmatched send in the trace")),
+            }
         }
     }
     Ok(())
@@ -118,7 +125,8 @@ impl Prop for C15 {
         }
         let rs = recs(ev, anchor);
         let d = c.delay_ns as i128;
-        // sends/receives per (sender is client?, padding?)
+        // packets per (sender is client?, padding?), in trace order
+        let mut flows: [[Vec<(i128, bool)>; 2]; 2] = Default::default();
         let mut sends: [[Vec<i128>; 2]; 2] = Default::default();
         let mut recvs: [[Vec<i128>; 2]; 2] = Default::default();
         let mut normal_sent_events = [0usize; 2];
@@ -126,8 +134,14 @@ impl Prop for C15 {
         let mut blocking = 0usize;
         for r in &rs {
             match r.ev {
-                Ev::TunnelSent => sends[r.client as usize][r.padding as usize].push(r.t),
-                Ev::TunnelRecv => recvs[(!r.client) as usize][r.padding as usize].push(r.t),
+                Ev::TunnelSent => {
+                    sends[r.client as usize][r.padding as usize].push(r.t);
+                    flows[r.client as usize][r.padding as usize].push((r.t, true));
+                }
+                Ev::TunnelRecv => {
+                    recvs[(!r.client) as usize][r.padding as usize].push(r.t);
+                    flows[(!r.client) as usize][r.padding as usize].push((r.t, false));
+                }
                 Ev::NormalSent => normal_sent_events[r.client as usize] += 1,
                 Ev::PaddingSent(_) => padding_sent_events += 1,
                 Ev::BlockingBegin(_) => blocking += 1,
@@ -144,8 +158,7 @@ impl Prop for C15 {
                         format!("{} {kind} packets sent by the {who}, {} received by the other side", sends[side][pad].len(), recvs[side][pad].len()),
                     );
                 }
-                let (mut s, mut r) = (sends[side][pad].clone(), recvs[side][pad].clone());
-                if let Err(e) = matchable(&mut s, &mut r, d) {
+                if let Err(e) = matchable(&flows[side][pad], d) {
                     return fail(
                         format!("{kind}-packet-received-before-sent-plus-delay"),
                         format!("{kind} packets sent by the {who}: {e}"),
@@ -205,7 +218,7 @@ impl Prop for C15 {
     fn assumptions() -> Vec<&'static str> {
         vec![
             "in unfiltered mode every simulator iteration records one event, so 'fewer events than max_sim_iterations' means the run ended because all normal packets were processed",
-            "injective matching is decided by the sorted greedy criterion, which succeeds iff any matching exists (no false alarm from reordering under the bottleneck)",
+            "injective matching of each receive to an earlier send (earlier by position in the time-ordered trace, at least one delay earlier by time) is decided greedily with the oldest unmatched send, which succeeds iff any such matching exists (no false alarm from reordering under the bottleneck)",
             "no integration delays",
         ]
     }
